@@ -7,6 +7,7 @@
  * attributed to one input by the Python side.
  */
 #include "drv.h"
+#include <unistd.h>
 
 static FILE *devnull;
 NI static int null_cb(const void *b, size_t n, void *k) { (void)b; (void)n; (void)k; return 0; }
@@ -24,6 +25,7 @@ NI static void outcome(struct mstat *st, int rc, size_t consumed) {
 NI static void one(asn_TYPE_descriptor_t *td, enum asn_transfer_syntax sy, const unsigned char *b, size_t n, long idx, long start, struct mstat *st) {
     if(idx < start) return;
     cur_set(idx, b, n);
+    alarm(6);   /* per-mutant watchdog: a hang is attributed to this input through the shared slot */
     unsigned char *x = exact_dup(b, n);
     ledger_reset(); ledger_on = 1;
     void *s = 0;
@@ -35,7 +37,8 @@ NI static void one(asn_TYPE_descriptor_t *td, enum asn_transfer_syntax sy, const
         asn_fprint(devnull, td, s);
         char eb[128]; size_t el = sizeof eb;
         asn_check_constraints(td, s, eb, &el);
-        for(int i = 0; i < 5; i++) asn_encode(0, ALLSYN[i], td, s, null_cb, 0);
+        static const char *SN[5] = { "der", "oer", "uper", "xer", "cxer" };
+        for(int i = 0; i < 5; i++) if(!pm_masked(SN[i])) asn_encode(0, ALLSYN[i], td, s, null_cb, 0);
     }
     ASN_STRUCT_FREE(*td, s);
     ledger_on = 0;
@@ -108,6 +111,7 @@ void cmd_mut(char **a, int na) {
             s3[0] = al[x]; s3[1] = al[y]; s3[2] = al[z]; one(td, sy, s3, 3, idx++, start, &st);
         }
     }
+    alarm(0);
     __real_free(m);
     exact_free(seed, n);
     printf("mut n=%ld ok=%ld fail=%ld wmore=%ld outcomes=%ld viol=%ld first=%s\n", st.n, st.rc[0], st.rc[2], st.rc[1], st.outcomes, st.viol, st.first[0] ? st.first : "-");
